@@ -101,6 +101,11 @@ def run(ctx):
             ntx = [1, 2, 3, 2][i % 4]
             special = dict(ntx=ntx, back_to_back=(i % 4 == 3), close_cut=(i % 3 == 0), header_only_last=(i % 5 == 4), lossy=False,
                            rate=rng.choice([8000, 11025, 22050, 44100] if i % 6 else [48000]))
+            if i % 8 == 1:
+                # two headers and no trailer at all, the recording cut at the last burst: the second header arrives while the first
+                # child is being fed and is still held by the assembler when the input ends
+                special.update(ntx=2, back_to_back=True, close_cut=True, header_only_last=True)
+                ntx = 2
             # headers of chosen kinds: make_recording draws its own headers, so patch samegen for this recording
             want_kinds = [kinds[(i + j) % len(kinds)] for j in range(ntx)]
             hs = [special_header(rng, k) for k in want_kinds]
